@@ -1,6 +1,6 @@
 (* Proofs about the state-module mirrors: C03 (check mode performs no managed action). *)
 From Coq Require Import List String Ascii Bool NArith Lia.
-From RashV Require Import Fs Octal OctalProofs StateMods Pacman StateSpec FsLemmas CopyProofs FileProofs TemplatePacmanProofs.
+From RashV Require Import Fs Octal OctalProofs StateMods Pacman StateSpec SeqSpec FsLemmas CopyProofs FileProofs TemplatePacmanProofs.
 Import ListNotations.
 Open Scope list_scope.
 
@@ -91,8 +91,6 @@ Proof. split; vm_compute; reflexivity. Qed.
 Definition wf_task (t : task) : Prop :=
   match t with TFile p => fp_path p <> [] | _ => True end.
 
-Definition target (t : task) : path :=
-  match t with TCopy p => cp_dest p | TTemplate p _ => tp_dest p | TFile p => fp_path p end.
 
 Theorem fs_declared e t s ch s' :
   run_task e t false s = (ROk ch, s') -> wf_task t -> no_alias t (sw s) = true ->
@@ -107,7 +105,7 @@ Proof.
 Qed.
 
 Theorem fs_ok_means_unchanged e t s s' :
-  run_task e t false s = (ROk false, s') -> known_empty_create t (sw s) = false -> s' = s.
+  run_task e t false s = (ROk false, s') -> known_empty_create e t (sw s) = false -> s' = s.
 Proof.
   destruct t as [p|p [text|]|p]; cbn [run_task]; intros H K.
   - eapply copy_ok_noop; eauto.
@@ -140,9 +138,9 @@ Qed.
 
 Theorem fs_predicts e t s c1 s1 c2 s2 :
   run_task e t true s = (ROk c1, s1) -> run_task e t false s = (ROk c2, s2) ->
-  no_alias t (sw s) = true -> known_empty_create t (sw s) = false -> c1 = c2.
+  no_alias t (sw s) = true -> known_empty_create e t (sw s) = false -> tmp_like_create e -> c1 = c2.
 Proof.
-  destruct t as [p|p [text|]|p]; cbn [run_task]; intros H1 H2 NA K.
+  destruct t as [p|p [text|]|p]; cbn [run_task]; intros H1 H2 NA K T.
   - eapply copy_predicts; eauto.
   - eapply template_predicts; eauto.
   - pose proof (template_none e p false s) as E. rewrite H2 in E. discriminate E.
@@ -151,19 +149,13 @@ Qed.
 
 Theorem fs_check_ok_means_real_noop e t s s1 c2 s2 :
   run_task e t true s = (ROk false, s1) -> run_task e t false s = (ROk c2, s2) ->
-  no_alias t (sw s) = true -> known_empty_create t (sw s) = false -> c2 = false /\ s2 = s.
+  no_alias t (sw s) = true -> known_empty_create e t (sw s) = false -> tmp_like_create e -> c2 = false /\ s2 = s.
 Proof.
-  intros H1 H2 NA K. assert (false = c2) by (eapply fs_predicts; eauto). subst c2.
+  intros H1 H2 NA K T. assert (false = c2) by (eapply fs_predicts; eauto). subst c2.
   split; [reflexivity|]. eapply fs_ok_means_unchanged; eauto.
 Qed.
 
 (* a pass over a task list in which every task is already stable is a no-op reported ok *)
-Fixpoint run_all (e : env) (ts : list task) (s : st) : list result * st :=
-  match ts with
-  | [] => ([], s)
-  | t :: r => let '(res, s1) := run_task e t false s in
-              let '(out, s2) := run_all e r s1 in (res :: out, s2)
-  end.
 Definition stable (e : env) (t : task) (w : world) : Prop :=
   forall l, run_task e t false {| sw := w; slog := l |} = (ROk false, {| sw := w; slog := l |}).
 Theorem pass_of_stable_tasks_is_noop e ts : forall w l,
@@ -183,11 +175,18 @@ Lemma K8_changed_iff_refuted :
   let t := TCopy {| cp_input := IContent ""; cp_dest := ["d"%string]; cp_mode := MNone |} in
   let r := run_task env0 t false {| sw := w_empty; slog := [] |} in
   fst r = ROk false /\ sw (snd r) ["d"%string] <> w_empty ["d"%string]
-  /\ known_empty_create t w_empty = true
+  /\ known_empty_create env0 t w_empty = true
   /\ fst (run_task env0 (TCopy {| cp_input := IContent ""; cp_dest := ["d"%string]; cp_mode := MStr "0600" |}) true
             {| sw := w_empty; slog := [] |}) = ROk true
   /\ fst (run_task env0 (TCopy {| cp_input := IContent ""; cp_dest := ["d"%string]; cp_mode := MStr "0644" |}) false
-            {| sw := w_empty; slog := [] |}) = ROk false.
+            {| sw := w_empty; slog := [] |}) = ROk false
+  (* the class is exactly "no chmod follows": with a mode that differs from the creation mode the task
+     reports changed (check mode too) and is outside the class *)
+  /\ known_empty_create env0 (TCopy {| cp_input := IContent ""; cp_dest := ["d"%string]; cp_mode := MStr "0600" |}) w_empty = false
+  /\ known_empty_create env0 (TCopy {| cp_input := IContent ""; cp_dest := ["d"%string]; cp_mode := MStr "0644" |}) w_empty = true
+  /\ fst (run_task env0 (TCopy {| cp_input := IContent ""; cp_dest := ["d"%string]; cp_mode := MStr "0600" |}) false
+            {| sw := w_empty; slog := [] |}) = ROk true
+  /\ tmp_like_create env0.
 Proof. cbv zeta. repeat split; try (vm_compute; reflexivity). vm_compute. discriminate. Qed.
 
 (* K9: declared state is false after a successful directory-on-file / touch-on-dir / absent-on-dangling *)
@@ -221,6 +220,6 @@ Example c04_nonvacuous :
   let t := TCopy {| cp_input := IContent "new"; cp_dest := ["d"%string]; cp_mode := MStr "4755" |} in
   fst (run_task env0 t false {| sw := w; slog := [] |}) = ROk true
   /\ no_alias t w = true /\ known_type_mismatch t w = false /\ known_absent_dangling t w = false
-  /\ known_empty_create t w = false
+  /\ known_empty_create env0 t w = false
   /\ stat (sw (snd (run_task env0 t false {| sw := w; slog := [] |}))) ["d"%string] = Some (NFile "new" 2541).
 Proof. cbv zeta. repeat split; vm_compute; reflexivity. Qed.
